@@ -20,6 +20,9 @@ def decorate(b, rng, claims=True, finality=False, storefaults=False, l2reorgs=Fa
     cfg = dict(b["cfg"])
     # (block numbers in the fep prover's answers are the model's: consecutive numbering there)
     idle = cfg.get("mode", "pp") != "fep" and rng.random() < 0.3
+    forever = storefaults and rng.random() < 0.3
+    if forever:
+        cfg["storeretries"] = -1     # MaxRetriesStoreCertificate = 0: a failed save is retried for ever (only transient failures then)
     if finality:
         # how the 5 L1 info leaves are spread over L1 blocks: several updates of the info tree can share a block
         cfg["l1shape"] = rng.choice([[1, 2, 3, 4, 5], [1, 2, 3, 4, 5], [1, 1, 2, 2, 3], [1, 2, 2, 2, 3], [1, 1, 1, 2, 2], [1, 2, 3, 3, 4]])
@@ -64,8 +67,8 @@ def decorate(b, rng, claims=True, finality=False, storefaults=False, l2reorgs=Fa
             # the L2 syncer stores a new block (one exit) while the node reads the L2 bridge store for this tick
             s["midblock"] = rng.randrange(1, 120)
         if s["a"] == "tick" and storefaults and s.get("o") == "ok" and rng.random() < 0.5:
-            s["storefail"] = rng.choice([1, 2])             # the first 1-2 save attempts fail as a whole; the save is retried
-        if s["a"] == "tick" and storefaults and s.get("o") == "crash_after_submit" and rng.random() < 0.5:
+            s["storefail"] = rng.choice([1, 2, 4] if forever else [1, 2])   # the first save attempts fail as a whole; the save is retried
+        if s["a"] == "tick" and storefaults and not forever and s.get("o") == "crash_after_submit" and rng.random() < 0.5:
             # the same divergence reached through storage: every attempt to save fails, then the process stops
             s["o"], s["storefail"] = "ok", -rng.choice([1, 2, 3])   # ... at the 1st/2nd/3rd statement of the save transaction
             steps.append(s)
